@@ -13,7 +13,7 @@ from math import pi, sqrt
 from pyparsing import (Literal, Optional, White, Regex,
                        ZeroOrMore, OneOrMore, Forward, StringEnd, Group)
 
-from .core import default_table, isatom, isisotope, change_table
+from .core import default_table, isatom, isisotope, ision, change_table
 from .constants import avogadro_number
 from .util import require_keywords, cell_volume
 
@@ -338,9 +338,16 @@ class Formula(object):
         """
         total_natural_mass = total_isotope_mass = 0
         for el, count in self.atoms.items():
-            try:
+            # Natural form of the atom: an isotope is replaced by its
+            # element, and an ion keeps its charge.
+            if ision(el):
+                base = el.element
+                if isisotope(base):
+                    base = base.element
+                natural_mass = base.ion[el.charge].mass
+            elif isisotope(el):
                 natural_mass = el.element.mass
-            except AttributeError:
+            else:
                 natural_mass = el.mass
             total_natural_mass += count * natural_mass
             total_isotope_mass += count * el.mass
